@@ -33,6 +33,10 @@ otherwise the ordinary result.  The functions are pure: the model answers every 
 own arguments only, whatever came before (earlier long results, a recovered panic); the
 harness additionally keeps every earlier result with an independent copy (results ledger).
 Subjects above 512 bytes are evaluated as in the large stream.
+`onbuf <id> <hex> <op …>`: the subject is a string VIEW (unsafe.String) of caller buffer `id`, which
+the harness overwrites in place between calls (same address and length, different text): for the
+model the same as `on <hex> <op …>` — the result depends on the bytes only.  `gc`: the harness
+runs `runtime.GC()` (freed strings may be re-allocated at the same address); answer `ok`.
 
 Header `@ C17 utf8`: the exhaustive tie of the shared UTF-8 prelude to Go's `unicode/utf8`
 (no call into /repo; see `Golib/Model/C17Utf8Tie.lean` for its operations).
@@ -117,7 +121,8 @@ def runOpL (s : List Nat) (ts : List String) : String :=
 /-- One line of a history case. -/
 def runOpH (ts : List String) : String :=
   match ts with
-  | "on" :: h :: rest =>
+  | ["gc"] => "ok"                      -- the harness runs the garbage collector; no model state
+  | "onbuf" :: _ :: h :: rest | "on" :: h :: rest =>   -- onbuf: subject = a view of a reused caller buffer
     match unhex h with
     | none => "bad-op"
     | some s =>
